@@ -73,7 +73,7 @@ func (e *Enc) callCommon(fr *Frame, st *State, cc *ssa.CallCommon, fnv *Val, arg
 				}
 				fr.contract.callAssertSeen(key)
 				e.addObl(&Obligation{Name: key + ":assert:" + clauseName(cl, i), Kind: "assert", Label: cl.Label, Clause: "at " + key + ": " + cl.Src, Reach: st.reach, Goal: g, Pos: e.posStr(pos)})
-				// assert, then assume: what was shown at the call site may be used after it (a lemma placed in the code)
+				// an assertion that has its own obligation is a lemma for everything that follows on this path
 				e.assume(st, g)
 			}
 		}
@@ -100,6 +100,7 @@ func (e *Enc) callCommon(fr *Frame, st *State, cc *ssa.CallCommon, fnv *Val, arg
 			}
 		}
 		if c, ok := e.DB.Contracts[key]; ok && c.callable() {
+			c = e.pickAlt(c, append([]*Val{recv}, args...))
 			e.safety(fr, st, "nil", not(eq(recv.L[0].T, "0")), "method call on nil interface "+cc.Method.Name(), pos)
 			return e.applyContract(fr, st, c, append([]*Val{recv}, args...), rt, hint, pos)
 		}
@@ -115,6 +116,39 @@ func (e *Enc) callCommon(fr *Frame, st *State, cc *ssa.CallCommon, fnv *Val, arg
 	if fnv != nil && fnv.Clos != nil {
 		return e.callStatic(fr, st, fnv.Clos.Fn, fnv.Clos.Bind, args, rt, hint, pos)
 	}
+	if fnv != nil && len(fnv.Alts) > 0 {
+		// one of several known closures, depending on the path: case split
+		var sts []*State
+		var conds []string
+		var ress []*Val
+		for _, a := range fnv.Alts {
+			sa := st.clone()
+			sa.reach = and(st.reach, a.Cond)
+			if sa.reach == "false" {
+				continue
+			}
+			r := e.callStatic(fr, sa, a.Clos.Fn, a.Clos.Bind, args, rt, hint, pos)
+			if sa.reach == "false" {
+				continue
+			}
+			sts = append(sts, sa)
+			conds = append(conds, sa.reach)
+			ress = append(ress, r)
+		}
+		if len(sts) == 0 {
+			st.reach = "false"
+			if rt == nil {
+				return &Val{}
+			}
+			return e.zeroVal(rt)
+		}
+		m := e.mergeStates(hint+"!alts", sts, conds)
+		*st = *m
+		if rt == nil {
+			return &Val{}
+		}
+		return e.mergeVals(hint+"!altres", ress, conds)
+	}
 	if fn := cc.StaticCallee(); fn != nil {
 		var binds []*Val
 		if mc, ok := cc.Value.(*ssa.MakeClosure); ok {
@@ -123,6 +157,14 @@ func (e *Enc) callCommon(fr *Frame, st *State, cc *ssa.CallCommon, fnv *Val, arg
 			}
 		}
 		return e.callStatic(fr, st, fn, binds, args, rt, hint, pos)
+	}
+	// call through a package-level variable of function type: a contract may be attached to the variable
+	if ld, ok := cc.Value.(*ssa.UnOp); ok && ld.Op == token.MUL {
+		if g, ok := ld.X.(*ssa.Global); ok && g.Pkg != nil && g.Pkg.Pkg != nil {
+			if c, ok := e.DB.Contracts["varcall:"+g.Pkg.Pkg.Path()+"."+g.Name()]; ok && c.callable() {
+				return e.applyContract(fr, st, c, append([]*Val{fnv}, args...), rt, hint, pos)
+			}
+		}
 	}
 	// dynamic function value: a contract may be attached to its named function type
 	dk := "dyncall:" + typeStr(cc.Value.Type())
@@ -276,10 +318,39 @@ func fnKey(fn *ssa.Function) string {
 	return fn.String()
 }
 
+// nondetPrefixes: functions whose result differs between nodes executing the same block.
+var nondetPrefixes = []string{"time.Now", "time.Since", "time.Until", "math/rand.", "math/rand/v2.", "crypto/rand.", "os.Getenv", "os.LookupEnv", "os.Environ", "os.Hostname", "os.Getpid", "runtime.NumCPU", "runtime.NumGoroutine", "runtime.GOMAXPROCS", "runtime.Caller", "runtime.Stack"}
+
+func isNondetSource(key string) bool {
+	for _, p := range nondetPrefixes {
+		if key == p || (strings.HasSuffix(p, ".") && strings.HasPrefix(key, p)) {
+			return true
+		}
+	}
+	return false
+}
+
 func (e *Enc) callStatic(fr *Frame, st *State, fn *ssa.Function, binds []*Val, args []*Val, rt types.Type, hint string, pos token.Pos) *Val {
 	key := fnKey(fn)
+	if e.top != nil && e.top.contract != nil && e.top.contract.Deterministic && e.dry == 0 && isNondetSource(key) {
+		e.addObl(&Obligation{Name: e.site(fr, "nondet:"+key, pos), Kind: "deterministic", Label: e.top.contract.DetLabel, Clause: "deterministic — call of the node-local source " + key, Reach: st.reach, Goal: "false", Pos: e.posStr(pos)})
+	}
 	if c, ok := e.DB.Contracts[key]; ok && c.callable() && len(binds) == 0 {
 		return e.applyContract(fr, st, c, args, rt, hint, pos)
+	}
+	if c, ok := e.DB.Contracts[key]; ok && c.callable() && c.closure && len(binds) == len(fn.FreeVars) {
+		// a closure with its own contract: the captured variables' cells are the bindings
+		cells := map[string]*Val{}
+		for i, fv := range fn.FreeVars {
+			if b := binds[i]; b != nil && isPointer(fv.Type()) && b.Loc == nil && b.Clos == nil {
+				cells[fv.Name()] = b
+			}
+		}
+		saved := e.applyCells
+		e.applyCells = cells
+		r := e.applyContract(fr, st, c, args, rt, hint, pos)
+		e.applyCells = saved
+		return r
 	}
 	if fn.Blocks != nil && e.canInline(fr, fn) {
 		return e.inline(fr, st, fn, binds, args, rt, hint, pos)
@@ -497,9 +568,16 @@ func (e *Enc) applyContract(fr *Frame, st *State, c *Contract, args []*Val, rt t
 			e.assumedUsed[c.Key]++
 		}
 	}
+	if e.top != nil && e.top.contract != nil && e.top.contract.Deterministic && e.dry == 0 && !c.Deterministic && !c.Assumed && !c.Pure && c.funcType == "" && strings.HasSuffix(c.File, ".go") && !(c.Sig != nil && c.Sig.Recv() != nil && types.IsInterface(c.Sig.Recv().Type())) {
+		// a verified function of the repository that is not itself checked for node-local sources
+		e.addObl(&Obligation{Name: e.site(fr, "nondet:callee-not-deterministic:"+c.Key, pos), Kind: "deterministic", Label: e.top.contract.DetLabel, Clause: "deterministic — callee " + c.Key + " has a contract without a `deterministic` clause", Reach: st.reach, Goal: "false", Pos: e.posStr(pos)})
+	}
 	sig := c.Sig
 	vars := e.bindParams(c, args, sig)
 	short := c.funcType
+	if c.closure {
+		short = c.funcName
+	}
 	if c.Obj != nil {
 		short = c.Obj.Name()
 		if sig.Recv() != nil {
@@ -507,7 +585,7 @@ func (e *Enc) applyContract(fr *Frame, st *State, c *Contract, args []*Val, rt t
 		}
 	}
 	siteName := e.site(fr, "call:"+short, pos)
-	env := &Env{e: e, vars: vars, st: st, old: st, pkgPath: c.PkgPath, imports: c.Imports, fr: nil}
+	env := &Env{e: e, vars: vars, st: st, old: st, pkgPath: c.PkgPath, imports: c.Imports, fr: nil, cells: e.applyCells}
 	for i, rq := range c.Requires {
 		g, err := env.evalBool(rq.E)
 		if err != nil {
@@ -529,7 +607,7 @@ func (e *Enc) applyContract(fr *Frame, st *State, c *Contract, args []*Val, rt t
 	case "any":
 		e.addPanic(fr, st, "callpanic:"+short, "true", "callee "+c.Key+" may panic", pos)
 	case "only_if", "iff":
-		penv := &Env{e: e, vars: vars, st: pre, old: pre, pkgPath: c.PkgPath, imports: c.Imports}
+		penv := &Env{e: e, vars: vars, st: pre, old: pre, pkgPath: c.PkgPath, imports: c.Imports, cells: e.applyCells}
 		p, err := penv.evalBool(c.PanicCond)
 		if err != nil {
 			e.unsupportedf("panics clause of %s: %v", c.Key, err)
@@ -546,7 +624,7 @@ func (e *Enc) applyContract(fr *Frame, st *State, c *Contract, args []*Val, rt t
 			// a repo contract without modifies clause: conservatively havoc everything
 			e.havocAll(st)
 		} else {
-			menv := &Env{e: e, vars: vars, st: pre, old: pre, pkgPath: c.PkgPath, imports: c.Imports}
+			menv := &Env{e: e, vars: vars, st: pre, old: pre, pkgPath: c.PkgPath, imports: c.Imports, cells: e.applyCells}
 			// the callee may allocate and may store what it allocated into the targets it modifies: the allocation counter
 			// moves BEFORE the targets are havocked, so that the typing fact "a reference read from memory is <= alloc" of a
 			// havocked reference leaf refers to the counter AFTER the call (it contradicted `ensures fresh(p.f)` otherwise)
@@ -600,6 +678,24 @@ func (e *Enc) applyContract(fr *Frame, st *State, c *Contract, args []*Val, rt t
 				}
 			}
 		}
+		if !c.Assumed {
+			// a verified callee may have handed out identities of the allocator ghost variables (not part of its frame)
+			for _, g := range sortedKeys(e.DB.Allocators) {
+				gv, ok := e.DB.GhostVars[g]
+				if !ok {
+					continue
+				}
+				srt, _, err := e.resolveTypeExpr(gv.T, gv.PkgPath, gv.Imports)
+				if err != nil || !strings.HasSuffix(srt, " Bool)") {
+					continue
+				}
+				ks, _ := splitArraySort(srt)
+				before := e.heapGet(st, "G|"+g, srt)
+				e.heapHavoc(st, "G|"+g)
+				after := st.heap["G|"+g]
+				e.assert("(forall ((l " + ks + ")) (! (=> (select " + before + " l) (select " + after + " l)) :pattern ((select " + after + " l))))")
+			}
+		}
 	}
 	var res *Val
 	if rt != nil {
@@ -611,7 +707,7 @@ func (e *Enc) applyContract(fr *Frame, st *State, c *Contract, args []*Val, rt t
 	} else {
 		res = &Val{}
 	}
-	env2 := &Env{e: e, vars: copyVals(vars), st: st, old: pre, pkgPath: c.PkgPath, imports: c.Imports}
+	env2 := &Env{e: e, vars: copyVals(vars), st: st, old: pre, pkgPath: c.PkgPath, imports: c.Imports, cells: e.applyCells}
 	env2.bindResults(c, res, rt)
 	for _, en := range c.Ensures {
 		g, err := env2.evalBool(en.E)
@@ -909,6 +1005,36 @@ func (e *Enc) encCopy(fr *Frame, st *State, cc *ssa.CallCommon, args []*Val, rt 
 		e.heapSet(st, k, sorts[i], "(store "+h+" "+d.L[0].T+" "+na+")")
 	}
 	return &Val{T: rt, L: []Sc{{n, "Int"}}}
+}
+
+// pickAlt: among the alternative assumed contracts of one method (Contract.Alts) choose the one that accepts the
+// statically known dynamic type of an interface-typed argument (`requires typeof(p) == type(T)`); without such
+// knowledge, or when no alternative accepts it, the first contract is used (its requires then fail at the call site).
+func (e *Enc) pickAlt(c *Contract, args []*Val) *Contract {
+	if len(c.Alts) == 0 {
+		return c
+	}
+	for _, cand := range append([]*Contract{c}, c.Alts...) {
+		vars := e.bindParams(cand, args, cand.Sig)
+		for _, g := range typeGuards(cand) {
+			v, ok := vars[g[0].(string)]
+			if !ok || len(v.L) != 2 {
+				continue
+			}
+			n, isConst := isConstTerm(v.L[0].T)
+			if !isConst {
+				continue
+			}
+			gt, err := e.resolveGoType(g[1].(*TypeExpr), cand.PkgPath, cand.Imports)
+			if err != nil {
+				continue // a type of a package that is not part of this load
+			}
+			if int64(e.TI.tagOf(gt)) == n.Int64() {
+				return cand
+			}
+		}
+	}
+	return c
 }
 
 // havocEffects: `modifies effects(f)` at a call site — the callee may do whatever calling the function value f does, any
